@@ -4,7 +4,7 @@ import re
 import glob
 import numpy
 
-from common import out, rng, Driver, REPO
+from common import scratch, out, rng, Driver, REPO
 
 TRUSTED = ['Lean 4.33 kernel (core only)', 'axioms ⊆ {propext, Quot.sound}', 'kernel evaluation (decide +kernel) of the name-composition model over the generated CALDB listing',
            'hand model IrfName.fileName tied by *exhaustive* comparison with irf_file_name over all IRF names × DU × types × flags',
@@ -202,7 +202,55 @@ def o_irfset(a):
     return not bad, dict(violated=bad)
 
 
-ORACLES = dict(reach=o_reach, set=o_set, irfset=o_irfset)
+def o_used(a):
+    """a response set after it has been *used*: the loaders hand out shared objects, so what a simulation or a conversion did with them must not
+    show in what the next caller gets. Uses: energy → channel conversions with energies inside and beyond the last channel; a photon list and an
+    event list drawn with the set. Then the set (loaded again, and the instance that was used) is compared with the files."""
+    import simdrive
+    from astropy.io import fits
+    from ixpeobssim import irf
+    from ixpeobssim.irf.caldb import irf_file_path
+    from ixpeobssim.irf.arf import xEffectiveArea
+    from ixpeobssim.srcmodel import import_roi
+    name, du = a['name'], a['du']
+    s0 = irf.load_irf_set(name, du)
+    energies = numpy.array([0.3, 2.001, 7.5, 14.99, 15.0, 17.3])
+    for fn in ('energy_to_channel',):
+        try:
+            getattr(s0.edisp.ebounds, fn)(energies.copy())
+        except BaseException:
+            pass
+    try:
+        s0.edisp.pha_analysis(energies.copy())
+    except BaseException:
+        pass
+    with scratch() as d:
+        roi = import_roi(simdrive.config_path('toy_point_source.py'))
+        simdrive.photon_list(roi, os.path.join(d, 'pl.fits'), du_id=du, seed=a['seed'], duration=20., argv=['--irfname', name], irf_set=s0)
+        simdrive.simulate(simdrive.config_path('toy_point_source.py'), os.path.join(d, 'ev.fits'), du_id=du, seed=a['seed'], duration=20., irfname=name)
+    bad = []
+    for label, s in (('the set that was used', s0), ('the set loaded afterwards', irf.load_irf_set(name, du))):
+        with fits.open(irf_file_path(name, du, 'rmf')) as h:
+            eb = h['EBOUNDS'].data
+            emin, emax = numpy.array(eb['E_MIN'], dtype=float), numpy.array(eb['E_MAX'], dtype=float)
+        if not (numpy.array_equal(numpy.array(s.edisp.ebounds.emin, dtype=float), emin) and numpy.array_equal(numpy.array(s.edisp.ebounds.emax, dtype=float), emax)):
+            k = int(numpy.argmax(numpy.abs(numpy.array(s.edisp.ebounds.emax, dtype=float) - emax)))
+            bad.append('%s: channel bounds differ from the EBOUNDS of the file (channel %d: E_MAX %r, file %r)' % (label, k, float(s.edisp.ebounds.emax[k]), float(emax[k])))
+        ref = xEffectiveArea(irf_file_path(name, du, 'arf'))
+        E = numpy.array(ref.x)
+        E = E[(E >= 1.02) & (E <= 11.98)]
+        if not hasattr(s.aeff, 'file_path') or type(s.aeff) is not type(ref):
+            bad.append('%s: aeff is a %s%s' % (label, type(s.aeff).__name__, '' if hasattr(s.aeff, 'file_path') else ' without a file'))
+        rel = float((numpy.abs(s.aeff(E) - ref(E)) / ref(E)).max())
+        if rel > 1e-9:
+            bad.append('%s: aeff differs from the arf file by a relative %.3g' % (label, rel))
+        rel = float((numpy.abs(s.mrf(E) - s.aeff(E) * s.modf(E)) / numpy.abs(s.mrf(E))).max())
+        if rel > 5e-6:
+            bad.append('%s: mrf differs from aeff × modf by a relative %.3g' % (label, rel))
+    return not bad, dict(violated=bad)
+
+
+ORACLES = dict(reach=o_reach, set=o_set, irfset=o_irfset, used=o_used)
 
 
 def run_oracle(chk, name, a, nontrivial=True):
@@ -236,6 +284,8 @@ def explore(chk, budget=1):
                 if quick and du != int(g.integers(1, 4)):
                     continue
                 run_oracle(chk, 'irfset', dict(name=name, du=du, gray=gflag), nontrivial=gflag)
+    for name in (names[:1] if quick else names[:3]):
+        run_oracle(chk, 'used', dict(name=name, du=int(g.integers(1, 4)), seed=int(g.integers(1, 10 ** 6))))
     chk.extra['irf_names'] = names
     chk.extra['exhaustive'] = not quick
 
